@@ -163,7 +163,10 @@ def session(rng, variant, n, instants=True, api=True, blocking=True, conn=None):
         interval=rng.choice([6, 24, 24, 80, 800, 3200]), latency=rng.choice([0, 0, 0, 1, 3]),
         sca=rng.randrange(8), hop=rng.choice([5, 10, 16]), winsize=rng.choice([1, 2, 3]), winoffset=rng.choice([0, 1, 5]))
     if "timeout" not in kw:
-        need = (kw.get("latency", 0) + 1) * 2 * kw.get("interval", 24) * 1250 // 10000 + 1
+        need = (kw.get("latency", 0) + 1) * 2 * kw.get("interval", 24) * 1250 // 10000 + 1      # timeout > (1 + latency) * interval * 2
+        if need > 3200:
+            kw["latency"] = 0
+            need = 2 * kw.get("interval", 24) * 1250 // 10000 + 1
         kw["timeout"] = min(3200, max(need, rng.choice([10, 72, 300, 3200])))
     ops = connected(rng, **kw)
     evc = 1
